@@ -407,6 +407,20 @@ func (fc *funcContext) translateStmt(stmt ast.Stmt, label *types.Label) {
 			panic(s.Tok)
 		}
 
+		// defines reports whether the statement declares lhs: in a := statement that
+		// redeclares some of its variables, those are plainly assigned to.
+		defines := func(lhs ast.Expr) bool {
+			if s.Tok != token.DEFINE {
+				return false
+			}
+			if id, ok := lhs.(*ast.Ident); ok {
+				if _, isUse := fc.pkgCtx.Uses[id]; isUse && fc.pkgCtx.Defs[id] == nil {
+					return false
+				}
+			}
+			return true
+		}
+
 		switch {
 		case len(s.Lhs) == 1 && len(s.Rhs) == 1:
 			lhs := astutil.RemoveParens(s.Lhs[0])
@@ -414,7 +428,7 @@ func (fc *funcContext) translateStmt(stmt ast.Stmt, label *types.Label) {
 				fc.Printf("$unused(%s);", fc.translateImplicitConversion(s.Rhs[0], fc.typeOf(s.Lhs[0])))
 				return
 			}
-			fc.Printf("%s", fc.translateAssign(lhs, s.Rhs[0], s.Tok == token.DEFINE))
+			fc.Printf("%s", fc.translateAssign(lhs, s.Rhs[0], defines(lhs)))
 
 		case len(s.Lhs) > 1 && len(s.Rhs) == 1:
 			tupleVar := fc.newLocalVariable("_tuple")
@@ -423,7 +437,7 @@ func (fc *funcContext) translateStmt(stmt ast.Stmt, label *types.Label) {
 			for i, lhs := range s.Lhs {
 				lhs = astutil.RemoveParens(lhs)
 				if !isBlank(lhs) {
-					fc.Printf("%s", fc.translateAssign(lhs, fc.newIdent(fmt.Sprintf("%s[%d]", tupleVar, i), tuple.At(i).Type()), s.Tok == token.DEFINE))
+					fc.Printf("%s", fc.translateAssign(lhs, fc.newIdent(fmt.Sprintf("%s[%d]", tupleVar, i), tuple.At(i).Type()), defines(lhs)))
 				}
 			}
 		case len(s.Lhs) == len(s.Rhs):
